@@ -21,6 +21,9 @@ WEIRD = ["'ééé'", "'😀😀'", "''", "'ab", '"open', "`", "$", "@", "@bogus"
 FAULTS = [
     "@defn sr1, sr1\n@db sr1", "@defn ma, mb\n@defn mb, ma\n@db ma", "@defl la, la + 1\n@dw la", "@defn c1, c2 + 1\n@defn c2, c3 + 1\n@defn c3, c1 + 1\n@dw c2",
     '@db @string { "<" b ld a x nop hl LD A, B ">" }', "@label { lb b ld }:\n@dw lbbld", '@parse { @db "<"b@sizeof x } ', "@db @string { af' ix IXH sp (c) }",
+    # directives at the one address past the end of memory (reached by filling it; zero-length things are still legal there)
+    '@org $ffff\n@db 1\n@incbin "empty.bin"\n@ds 0\n@align 2\n@db ""', '@org $ffff\n@db 1\n@incbin "blob.bin"', '@ds $8000\n@ds $8000\n@incbin "empty.bin"\nlx1:\n@dw',
+    '@org $fffe\n@dw 1\n@ds 0, 5\n@incbin "empty.bin"\n@db 2', '@org $ffff\n nop\n@org @here - 1\n@incbin "blob.bin"',
     # an empty element list, then every construct that opens another token source (each needs the directory stack intact)
     '@each tt, { }\n@db tt\n@endeach\n@include "inc.inc"', "@macro mm9, 0\n@db 1\n@endmacro\n@each tt, { }\n@endeach\nmm9",
     "@each tt, { }\n@endeach\n@each uu, { 1 2 }\n@db uu\n@endeach", '@each tt, { @count 0 }\n@endeach\n@incbin "blob.bin"',
@@ -250,7 +253,7 @@ def mutate(rng, data, corpus):
             del data[i:]
     return bytes(data)
 
-EXTRA = {"/w/inc.inc": "@db $aa\n", "/w/blob.bin": b"\x10\x11"}
+EXTRA = {"/w/inc.inc": "@db $aa\n", "/w/blob.bin": b"\x10\x11", "/w/empty.bin": b""}
 
 def run(ck):
     ck.rule = ("(a) byte mutations (replace / flip / delete / insert structural bytes / splice / duplicate / truncate, 1..4 per "
